@@ -112,6 +112,93 @@ func runGpromise(c *Ctx) {
 			}
 		})
 	}
+	// --- every function that closes a Promise's done channel also arms isDone on that path (a
+	// pre-resolved promise must refuse a later SetResult exactly like one resolved by SetResult)
+	for _, d := range declsWhere(c, "promise", func(d *core.FuncDecl, n ast.Node) bool {
+		call, ok := n.(*ast.CallExpr)
+		if !ok || len(call.Args) != 1 {
+			return false
+		}
+		id, ok := unparen(call.Fun).(*ast.Ident)
+		if !ok || id.Name != "close" {
+			return false
+		}
+		fv := fieldVar(call.Args[0], &core.Frame{Pkg: d.Pkg})
+		return fv != nil && core.FieldName(fv) == "promise.Promise.done"
+	}) {
+		d := d
+		name := core.FuncName(d.Obj)
+		c.Walk("R9", &core.Config{}, core.Entry{Decl: d}, func(p *core.Path) {
+			if p.End != core.EndReturn {
+				return
+			}
+			closed, armed := token.NoPos, false
+			for _, ev := range p.Events {
+				if ev.Kind == core.KClose {
+					if fv := fieldVar(ev.Chan, ev.Frame); fv != nil && core.FieldName(fv) == "promise.Promise.done" {
+						closed = ev.Pos
+					}
+				}
+				if ev.Kind == core.KCall && ev.Callee != nil && ev.Callee.Pkg() != nil && ev.Callee.Pkg().Path() == "sync/atomic" && len(ev.Call.Args) >= 1 {
+					if fv := fieldVar(callRecv(ev.Call), ev.Frame); fv != nil && core.FieldName(fv) == "promise.Promise.isDone" {
+						last := ev.Call.Args[len(ev.Call.Args)-1]
+						if tv, ok := ev.Frame.Info().Types[unparen(last)]; ok && tv.Value != nil && tv.Value.ExactString() == "true" {
+							armed = true
+						}
+					}
+				}
+			}
+			if closed.IsValid() {
+				a.note("R9", name+"/close-arms-isDone", closed, !armed,
+					"a path that closes done also sets isDone (Swap/Store/CompareAndSwap to true)",
+					"a path closes the promise's done channel without setting isDone: a later SetResult wins the election again, overwrites the published result and closes the channel a second time", p)
+			}
+		})
+	}
+	// --- PromiseContainer: a method called on the sampled promise is guarded by a nil test made
+	// after that sample was taken
+	for _, fn := range []string{"Await", "AwaitWithErrCh", "AwaitWithCancelCh"} {
+		d := c.declByName("R6a", "promise", "PromiseContainer", fn)
+		if d == nil {
+			continue
+		}
+		name := core.FuncName(d.Obj)
+		c.Walk("R6a", &core.Config{Follow: samePkgFollow(d.Pkg.PkgPath)}, core.Entry{Decl: d}, func(p *core.Path) {
+			g := prepare(c, p)
+			lastAssign := map[*types.Var]int{}
+			for i, ev := range p.Events {
+				if ev.Kind == core.KAssign && !ev.FieldInit {
+					if v := identVar(ev.Lhs, ev.Frame); v != nil && !v.IsField() {
+						lastAssign[v] = i
+					}
+				}
+				if ev.Kind != core.KCall || ev.Callee == nil || ev.Frame.Parent != nil {
+					continue
+				}
+				rv := identVar(callRecv(ev.Call), ev.Frame)
+				if rv == nil || rv.IsField() {
+					continue
+				}
+				if _, isIface := rv.Type().Underlying().(*types.Interface); !isIface {
+					continue
+				}
+				if n, ok := rv.Type().(*types.Named); !ok || n.Obj().Name() != "PromiseLike" {
+					continue
+				}
+				var since []*r2Lit
+				for j := lastAssign[rv] + 1; j < i; j++ {
+					if g.lits[j] != nil {
+						since = append(since, g.lits[j])
+					}
+				}
+				ok, _ := implies(since, fnot(eq("nil", c.Role(rv))))
+				a.note("R6a", name+"/sampled-promise-non-nil", ev.Pos, !ok,
+					"a method is called on the sampled promise only after a nil test of that sample",
+					"a method is called on the promise sampled from the container without a nil test made after the sample was taken: the container can be empty (again) at that moment and the call dereferences nil", p)
+			}
+		})
+		a.expect("R6a", name+"/sampled-promise-non-nil", 1, "the await on the sampled promise")
+	}
 	// --- Once
 	if d := c.declByName("R8", "promise", "Once", "Resolve"); d != nil {
 		name := core.FuncName(d.Obj)
@@ -168,6 +255,31 @@ func runGpromise(c *Ctx) {
 		}
 		if goDecl != nil {
 			ges = append(ges, goEntry{core.Entry{Decl: goDecl}, name + ".go#1"})
+		}
+		// o.prom is cleared only by the callback goroutine (after the callback returned): a nil
+		// assignment anywhere else in the package lets a second callback run start while the first
+		// is still executing
+		for _, od := range pkgDecls(c, "promise") {
+			od := od
+			ast.Inspect(od.Decl.Body, func(n ast.Node) bool {
+				rhs, ok := assignsFieldNode(od, n, "promise.Once.prom")
+				if !ok || rhs == nil || !isNilExpr(rhs, &core.Frame{Pkg: od.Pkg}) {
+					return true
+				}
+				inGo := false
+				for _, ge := range ges {
+					if ge.e.Decl != nil && ge.e.Decl == od {
+						inGo = true
+					}
+					if ge.e.Lit != nil && n.Pos() >= ge.e.Lit.Pos() && n.End() <= ge.e.Lit.End() {
+						inGo = true
+					}
+				}
+				a.note("R8", name+"/clear-only-in-callback-goroutine", n.Pos(), !inGo,
+					"o.prom is cleared only by the goroutine that ran the callback",
+					"o.prom is set to nil outside the callback goroutine ("+core.FuncName(od.Obj)+"): the attempt in flight is forgotten while its callback is still running, and the next Resolve starts a second, overlapping run", nil)
+				return true
+			})
 		}
 		for _, ge := range ges {
 			lname := ge.lname
